@@ -3,7 +3,7 @@ P = dict(
     bin="egv_c06", trace="Trace_C06", level="model_checking",
     mc=[dict(module="MC_C06", quick_cfg="MC_C06.cfg", thorough_cfg="MC_C06_thorough.cfg", workers=8),
         dict(module="MC_C06", quick_cfg="MC_C06_control.cfg", expect_violation=True, coverage=False, workers=8),
-        dict(module="MC_C06e", quick_cfg="MC_C06e.cfg", thorough_cfg="MC_C06e_thorough.cfg", workers=12, thorough_timeout=3000),
+        dict(module="MC_C06e", quick_cfg="MC_C06e.cfg", thorough_cfg="MC_C06e_thorough.cfg", workers=12, thorough_timeout=3000, coverage=False),
         dict(module="MC_C06e", quick_cfg="MC_C06e_control_ell.cfg", expect_violation=True, coverage=False, workers=8),
         dict(module="MC_C06e", quick_cfg="MC_C06e_control_rr.cfg", expect_violation=True, coverage=False, workers=8)],
     proofs=["Proof_C06"],
